@@ -6,11 +6,11 @@ use crate::model::{Kind, Lid, MNode, Model, Nm};
 use crate::rng::Rng;
 use serde::{Deserialize, Serialize};
 
-pub const LOCALS: [&str; 7] = ["a", "b", "c", "d", "e", "f", "A"];
+pub const LOCALS: [&str; 8] = ["a", "b", "c", "d", "e", "f", "A", "id"];
 pub const URIS: [&str; 4] = ["urn:x", "urn:y", "urn:z", "urn:w?a=1&b=\"2\""];
 pub const PREFIXES: [&str; 3] = ["p", "q", "r"];
-pub const TEXTS: [&str; 13] = ["t", "x y", " ", "hello", "<&>", "é", "a]]>b", "  \n ", "1", "\"q'", "zz", "\u{1F600}", "a long run of character data, long enough to cross the small-string and buffer sizes that short samples never reach; 0123456789 0123456789 0123456789 0123456789 0123456789 0123456789 <&> \u{1F600} end"];
-pub const ATTR_VALUES: [&str; 8] = ["v", "", "x y", "<&\">", "é", "w'w", "1", "long value here"];
+pub const TEXTS: [&str; 16] = ["t", "x y", " ", "hello", "<&>", "é", "a]]>b", "  \n ", "1", "\"q'", "zz", "\u{1F600}", "a\rb", "]]", ">", "a long run of character data, long enough to cross the small-string and buffer sizes that short samples never reach; 0123456789 0123456789 0123456789 0123456789 0123456789 0123456789 <&> \u{1F600} end"];
+pub const ATTR_VALUES: [&str; 10] = ["v", "", "x y", "<&\">", "é", "w'w", "1", "long value here", " a1 ", "first  second"];
 pub const COMMENTS: [&str; 5] = ["c", " note ", "", "a-b", "<x>"];
 pub const PI_TARGETS: [&str; 3] = ["pi", "target", "x-y"];
 pub const PI_DATA: [&str; 4] = ["d", "a b", "x=\"1\"", "?"];
@@ -202,6 +202,13 @@ pub fn gen_elem(rng: &mut Rng, cfg: &GenCfg, scope: &Scope, depth: usize, ids: &
             format!("id{}", ids),
         ));
     }
+    if rng.pct(cfg.xml_id_pct / 3 + 3) {
+        attrs.push((
+            Nm { local: "space".into(), uri: "http://www.w3.org/XML/1998/namespace".into() },
+            "xml".into(),
+            rng.pick_str(&["preserve", "preserve", "default"]).to_string(),
+        ));
+    }
     // children
     let mut kids: Vec<AContent> = vec![];
     if depth < cfg.max_depth {
@@ -227,6 +234,7 @@ pub fn esc_text(s: &str, out: &mut String) {
             '&' => out.push_str("&amp;"),
             '<' => out.push_str("&lt;"),
             '>' => out.push_str("&gt;"),
+            '\r' => out.push_str("&#13;"),
             _ => out.push(c),
         }
     }
@@ -257,15 +265,21 @@ pub fn render_content(c: &AContent, out: &mut String, cdata: &mut dyn FnMut() ->
     match c {
         AContent::Elem(e) => render_elem(e, out, cdata),
         AContent::Text(t) => {
-            if !t.contains("]]>") && cdata() {
-                // one text node, written as character data next to a CDATA section (the parser has
-                // to consolidate the pieces) or as one CDATA section
+            if !t.contains("]]>") && !t.contains('\r') && cdata() {
+                // one text node, written as character data next to a CDATA section, as two CDATA
+                // sections in a row (the parser has to consolidate the pieces), or as one section
                 let chars: Vec<char> = t.chars().collect();
                 if chars.len() >= 2 && cdata() {
                     let mid = chars.len() / 2;
                     let (a, b): (String, String) = (chars[..mid].iter().collect(), chars[mid..].iter().collect());
                     if !a.ends_with(']') {
-                        esc_text(&a, out);
+                        if cdata() {
+                            out.push_str("<![CDATA[");
+                            out.push_str(&a);
+                            out.push_str("]]>");
+                        } else {
+                            esc_text(&a, out);
+                        }
                         out.push_str("<![CDATA[");
                         out.push_str(&b);
                         out.push_str("]]>");
@@ -300,23 +314,40 @@ pub fn render_elem(e: &AElem, out: &mut String, cdata: &mut dyn FnMut() -> bool)
     let q = qname(&e.prefix, &e.name.local);
     out.push('<');
     out.push_str(&q);
-    for (p, u) in &e.decls {
-        if p.is_empty() {
-            out.push_str(" xmlns=\"");
+    // declarations and attributes of one start tag may be written in any relative order: normally
+    // declarations first, sometimes interleaved (an attribute written before the declaration
+    // that binds its prefix); the order within each of the two kinds is kept
+    let interleave = !e.decls.is_empty() && !e.attrs.is_empty() && cdata();
+    let (mut di, mut ai) = (0usize, 0usize);
+    while di < e.decls.len() || ai < e.attrs.len() {
+        let take_attr = if di == e.decls.len() {
+            true
+        } else if ai == e.attrs.len() {
+            false
         } else {
-            out.push_str(" xmlns:");
-            out.push_str(p);
+            interleave && (ai == 0 && di == 0 || cdata())
+        };
+        if take_attr {
+            let (n, p, v) = &e.attrs[ai];
+            ai += 1;
+            out.push(' ');
+            out.push_str(&qname(p, &n.local));
             out.push_str("=\"");
+            esc_attr(v, out);
+            out.push('"');
+        } else {
+            let (p, u) = &e.decls[di];
+            di += 1;
+            if p.is_empty() {
+                out.push_str(" xmlns=\"");
+            } else {
+                out.push_str(" xmlns:");
+                out.push_str(p);
+                out.push_str("=\"");
+            }
+            esc_attr(u, out);
+            out.push('"');
         }
-        esc_attr(u, out);
-        out.push('"');
-    }
-    for (n, p, v) in &e.attrs {
-        out.push(' ');
-        out.push_str(&qname(p, &n.local));
-        out.push_str("=\"");
-        esc_attr(v, out);
-        out.push('"');
     }
     if e.kids.is_empty() {
         out.push_str("/>");
